@@ -100,6 +100,16 @@ FIXED += [
      c04(wrap("  class  &\n  (  &\n  t(4, *))&\n  &vf_a\n  integer(4)k"), wrap("  class(t(4, *)) vf_a\n  integer(4) k"))),
 ]
 
+FIXED += [
+    ("C05", "fixed-tree-differs", "b176d9f", "in fixed form a construct name (or its ':') that did not stand wholly on the initial line was not recognised",
+     {"mode": "raw", "std": "f2003", "key": "fixed-tree-differs",
+      "fixed_text": "      subroutine s\n       cntrow\n     3up: select case (k)\n       case (8)\n       endselect cntrowup\n      end\n",
+      "free_text": "subroutine s\ncntrowup: select case (k)\ncase (8)\nend select cntrowup\nend\n"}),
+    ("C05", "fixed-rejected", "b176d9f", "a fixed-form initial line ending in 'word :' (statement cut between the colons of '::', or a construct name alone on its line) was taken for a lone construct name; reporting it raised IndexError in the reader, which silently stopped delivering items",
+     {"mode": "raw", "std": "f2003", "key": "fixed-rejected",
+      "fixed_text": "      program p\n       dimension :\n     *: ro(2, 3)\n      nm :\n     * do i = 1, 2\n      end do nm\n      end\n", "free_text": "program p\ndimension :: ro(2, 3)\nnm: do i = 1, 2\nend do nm\nend\n"}),
+]
+
 OPEN = [
     ("C03", "defined-binary-op-with-dotted-right", "a defined binary operator with a dotted operator or logical literal to its right at the same parenthesis level is not parsed (Expr.match splits at the right-most .word. and gives up if that one is intrinsic)",
      {"mode": "expr", "text": "a .x. b .and. c", "expected": "(a.x.(b.and.c))", "context": "expr", "known": True}),
@@ -111,13 +121,6 @@ OPEN = [
     ("C02", "deviation:char-selector-order", "CHARACTER(KIND=k, LEN=n) is printed LEN first: tokens reordered, not a listed canonicalisation", None),
     ("C02", "deviation:blank-common-slashes", "COMMON a, b is printed COMMON // a, b: tokens invented, not a listed canonicalisation", None),
     ("C02", "deviation:computed-goto-comma", "GO TO (10, 20) i is printed with a comma before the expression: token invented, not a listed canonicalisation", None),
-    ("C05", "construct-name-split-across-fixed-continuation", "in fixed form a construct name (or its ':') that does not stand wholly on the initial line is not recognised (the free-form repair 7e1a9e2 does not cover the fixed-form branch)",
-     {"mode": "raw", "std": "f2003", "key": "construct-name-split-across-fixed-continuation",
-      "fixed_text": "      subroutine s\n       cntrow\n     3up: select case (k)\n       case (8)\n       endselect cntrowup\n      end\n",
-      "free_text": "subroutine s\ncntrowup: select case (k)\ncase (8)\nend select cntrowup\nend\n"}),
-    ("C05", "initial-line-ends-in-name-colon", "a fixed-form initial line that ends in 'word :' (statement cut between the two colons of '::') is taken for a lone construct name and the reader calls sys.exit",
-     {"mode": "raw", "std": "f2003", "key": "initial-line-ends-in-name-colon",
-      "fixed_text": "      program p\n       dimension :\n     *: ro(2, 3)\n      end\n", "free_text": "program p\ndimension :: ro(2, 3)\nend\n"}),
     ("C05", "fixed-not-detected:bang-comment-in-columns-2-5", "a '!' comment starting in columns 2-5 makes the detector report free form (asserted by test_conditional_include_omp_conditional_liness_free_format_single_line, so not repairable here)",
      {"mode": "raw", "std": "f2003", "key_detect": "fixed-not-detected:bang-comment-in-columns-2-5", "fixed_text": "  ! x = 1\n      program p\n      end\n", "free_text": "program p\nend\n"}),
     ("C05", "fixed-not-detected:line-ends-in-ampersand", "a fixed-form line whose last character is '&' (e.g. a continuation line holding only the mark '&') makes the detector report free form",
@@ -157,8 +160,6 @@ OPEN = [
      {"mode": "raw", "std": "f2003", "key": "parenthesised-complex-literal-followed-by-blank", "text": wrap("  x = (((.5, 1.0) ))"), "comments": []}),
     ("C04", "parenthesised-complex-literal-followed-by-blank", "same mechanism, reached through a continuation placed before the closing parenthesis",
      dict(c04(wrap("  x = (((.5, 1.0) &\n  ))"), wrap("  x = (((.5, 1.0)))")), key="parenthesised-complex-literal-followed-by-blank")),
-    ("C12", "construct-name-split-across-fixed-continuation", "same mechanism as the C05 entry, seen at the reader level: the item keeps 'name:' in its text and has no name", None),
-    ("C12", "initial-line-ends-in-name-colon", "same mechanism as the C05 entry, seen at the reader level (sys.exit while iterating the reader)", None),
     ("C13", "include-file-detected-as-fixed-form", "the nested reader re-detects the source form of an included file; a file with no line proving free form (e.g. only labelled statements, or everything indented by 6+) is read as fixed form", None),
     ("C14", "include-angle-brackets-printed-as-quotes", "#include <f> is regenerated as #include \"f\"",
      {"mode": "raw", "std": "f2003", "key": "include-angle-brackets-printed-as-quotes", "text": "#include <sys.h>\nprogram p\nend program p\n", "directives": ["#include <sys.h>"]}),
